@@ -145,6 +145,11 @@ func (db *DB) openMemTable(fid, flags int) (*memTable, error) {
 func (db *DB) newMemTable() (*memTable, error) {
 	mt, err := db.openMemTable(db.nextMemFid, os.O_CREATE|os.O_RDWR)
 	if err == z.NewFile {
+		// Make the new WAL's directory entry durable: with SyncWrites its contents are synced on
+		// every write, which is of no use if the file itself can vanish in a power failure.
+		if serr := db.syncDir(db.opt.Dir); serr != nil {
+			return nil, y.Wrapf(serr, "newMemTable")
+		}
 		db.nextMemFid++
 		return mt, nil
 	}
